@@ -6,6 +6,7 @@ import (
 	"go/ast"
 	"go/types"
 
+	"github.com/quasilyte/gogrep"
 	"github.com/quasilyte/gogrep/nodetag"
 )
 
@@ -70,4 +71,21 @@ func VerifWalkEvents(info *types.Info, root ast.Node, init VerifWalkState, panic
 // VerifNodeTags exposes the numeric values of gogrep's node tags used for bucketing.
 func VerifNodeTags() (numBuckets, stmtList, exprList, declList int) {
 	return int(nodetag.NumBuckets), int(nodetag.StmtList), int(nodetag.ExprList), int(nodetag.DeclList)
+}
+
+// VerifDirtyRunnerState puts into a RunnerState the kind of values an earlier run can leave behind
+// (a run whose callback panicked in the middle of a dead branch of some function, inside a custom filter,
+// after a Contains() sub-search): stale node path entries, dead-code flag, current function, filter variable
+// name, Do() strings, operand stack entries and a capture preset of the sub-matcher.
+func VerifDirtyRunnerState(st *RunnerState, n ast.Node, fn *ast.FuncDecl) {
+	st.nodePath.Push(n)
+	st.nodePath.Push(fn)
+	st.object.filterParams.deadcode = true
+	st.object.filterParams.currentFunc = fn
+	st.object.filterParams.varname = "stale"
+	st.object.filterParams.reportString = "stale report"
+	st.object.filterParams.suggestString = "stale suggestion"
+	st.evalEnv.Stack.Push(n)
+	st.evalEnv.Stack.PushInt(7)
+	st.gogrepSubState.CapturePreset = []gogrep.CapturedNode{{Name: "x", Node: n}, {Name: "i", Node: n}}
 }
